@@ -63,7 +63,7 @@ CLAIMED = {
    tech="AST->z3 VC generation over a ghost file system with exceptional post-conditions (deductive) + bounded native stand-in"),
  "C04": dict(cat="other", ref="DESIGN.md 4/C04",
    text="Contracts of every step of NP2Converter.process over the ghost file system: _prepare_files_NP24 (no-op on repeat, outputs never alias the input, channel lists = where(shank==s)+sync), check_NP24 (every window compared, flag only after the loop; the whole function through the interpreter: every exceptional way out leaves check_completed unset), _prepare_files_NP21 (forced / first run starts the LF output empty), "
-        "epilogue order (original unlinked only after check_NP24 returned normally with both flags), delete_NP24 guard, compress_NP24/NP21 through C02's compress_file incl. failures, early exits (an already split input is refused before any output is prepared, with or without overwrite; probes that are neither NP2.1 nor NP2.4 - NP1 generations, NP Ultra - are refused untouched), a flag left by an earlier call on the same converter object does not decide the next one, init_params reset; rests on C03's init_params contract (every sample is split and verified before the original goes).",
+        "epilogue order (original unlinked only after check_NP24 returned normally with both flags, and only when the whole recording - not just the first nsamples samples - was split and verified: F-C04-2, repaired), delete_NP24 guard, compress_NP24/NP21 through C02's compress_file incl. failures, early exits (an already split input is refused before any output is prepared, with or without overwrite; probes that are neither NP2.1 nor NP2.4 - NP1 generations, NP Ultra - are refused untouched), a flag left by an earlier call on the same converter object does not decide the next one, init_params reset; rests on C03's init_params contract (every sample is split and verified before the original goes).",
    note="Histories are handled inductively (one guarded unlink of the original); interruptions = exceptions of external calls; real run histories on files (first/repeat/overwrite/corrupted split/failed verification then delete_NP24()/NP2.1/NP1) are a bounded stand-in. F-C04-1 (retry after partial folder creation) was repaired.",
    tech="AST->z3 VC generation over a ghost file system, effect-log ordering obligations (deductive) + bounded histories"),
  "C13": dict(cat="other", ref="DESIGN.md 4/C13",
